@@ -21,7 +21,7 @@ import (
 )
 
 var faultKinds = []string{"server-cut", "write-error", "callback-fails", "exception-anytime", "unknown-packet", "unhandled-packet",
-	"undecodable-block", "surplus-headers", "write-error+exception", "exception-cut"}
+	"undecodable-block", "surplus-headers", "write-error+exception", "exception-cut", "reset"}
 
 func TestC04FailedQuery(t *testing.T) {
 	st := stats.G()
@@ -138,7 +138,7 @@ func runC04(rt *rapid.T, st *stats.Collector) {
 	}
 	cutDone := false
 	extra := func() []schedAction {
-		if fault != "server-cut" || cutDone {
+		if (fault != "server-cut" && fault != "reset") || cutDone {
 			return nil
 		}
 		// Cut once the client has consumed at least cutAfter bytes of this exchange (or any time the server is idle).
@@ -147,6 +147,10 @@ func runC04(rt *rapid.T, st *stats.Collector) {
 				cutDone = true
 				cutErr = errors.New("connection reset by peer")
 				g.e.conn.CutReads(cutErr)
+				if fault == "reset" {
+					// the peer reset the connection: reads fail, and so does every later write
+					g.e.conn.FailWritesAfter(len(g.e.conn.WrittenBytes()))
+				}
 			}}}
 		}
 		return nil
@@ -156,7 +160,9 @@ func runC04(rt *rapid.T, st *stats.Collector) {
 	bound := effRead*time.Duration(g.packets+3) + 3*time.Second
 	g.schedule(extra, bound)
 	g.finish()
-	g.e.conn.FailWritesAfter(-1) // the injected write fault concerns the query only
+	if fault != "reset" {
+		g.e.conn.FailWritesAfter(-1) // the injected write fault concerns the query only
+	}
 	elapsed := g.returned.Sub(g.start)
 	if elapsed > bound {
 		rt.Fatalf("Do returned after %v of virtual time, bound %v\nscenario %+v fault %s\nschedule %s", elapsed, bound, sc, fault, strings.Join(g.trace, " "))
@@ -192,6 +198,9 @@ func runC04(rt *rapid.T, st *stats.Collector) {
 			rt.Fatalf("calls on a closed client touched the connection (%d -> %d writes, %d -> %d other calls)\n%s", nwrites, len(w2), ncalls, len(c2), describe())
 		}
 	} else {
+		if fault == "reset" && faultHappened && cutDone && !ch.IsException(g.doErr) {
+			rt.Fatalf("the connection was reset (reads and writes fail), Do failed with a transport error, yet the client stays open on the dead connection: neither closed nor usable\n%s", describe())
+		}
 		if fault == "exception-cut" && faultHappened {
 			rt.Fatalf("the server stream was cut in the middle of an Exception packet, yet the client stays open (the read side is inside a packet)\n%s", describe())
 		}
@@ -210,7 +219,11 @@ func runC04(rt *rapid.T, st *stats.Collector) {
 		w2, _ := g.e.conn.Snapshot()
 		var sent []byte
 		for _, w := range w2[nw:] {
-			sent = append(sent, w.Data...)
+			if fault == "reset" && cutDone {
+				sent = append(sent, w.Attempt...) // the connection refuses writes: judge what the client tried to send
+			} else {
+				sent = append(sent, w.Data...)
+			}
 		}
 		if string(sent) != "\x04" {
 			rt.Fatalf("client left open after the failed query; the follow-up Ping made it write %d bytes (%x…), want exactly 04: bytes encoded for the failed query were sent later\n%s", len(sent), trunc(sent), describe())
